@@ -548,7 +548,8 @@ fn run_probe(adf: &mut Adf, p: &Value, n: usize) -> (bool, String) {
 pub fn adf_history(v: &Value) -> Value {
     let n = us(&v["n"]);
     let tabs = tabs_of(&v["tabs"]);
-    let mut adf = adf_from_tabs(n, &tabs);
+    let novars = v["novars"].as_bool().unwrap_or(false);
+    let mut adf = adf_from_tabs_opt(n, &tabs, novars);
     let mut first: std::collections::HashMap<String, Value> = Default::default();
     let mut repeat_differs = false;
     for c in v["history"].as_array().unwrap() {
@@ -570,7 +571,7 @@ pub fn adf_history(v: &Value) -> Value {
     let after = api_call(&mut adf, fin, n, v);
     let (probe_wrong, probe_detail) = run_probe(&mut adf, &v["probe"], n);
     let changed = adf.ac.iter().zip(tabs.iter()).any(|(t, tb)| table(&adf.bdd, *t, n) != json!(tb));
-    let mut fresh_adf = adf_from_tabs(n, &tabs);
+    let mut fresh_adf = adf_from_tabs_opt(n, &tabs, novars);
     let fresh = api_call(&mut fresh_adf, fin, n, v);
     json!({"after": after, "fresh": fresh, "tables_changed": changed, "repeat_differs": repeat_differs, "nodes": dump_nodes(&adf.bdd),
            "probe_wrong": probe_wrong, "probe_detail": probe_detail})
